@@ -10,6 +10,7 @@ import AvroModel.Spec.Observe
 import AvroModel.Impl.Single
 import AvroModel.Impl.Lifetimes
 import AvroModel.Spec.Pcf
+import AvroModel.Lemmas.DriverFuel
 open Avro Avro.Impl Driver
 
 def Driver.ExtTable.toDenExt (t : ExtTable) : Spec.DenExt :=
@@ -24,9 +25,12 @@ def schemaNamesDistinct (S : Schema) : Bool :=
     | .enum _ syms => syms.Nodup
     | _ => true
 
-/-- Fuel for the graph traversals (canonical form, renderer, freeze): the bound of the totality
-    theorems C19_pcf_total / C19_render_total, `size * (size+1) * (maxWidth+1) + 1`, with slack. -/
-def graphFuel (S : SchemaMut) : Nat := (S.size + 2) * (S.size + 2) * (maxWidth S + 2) + 64
+/-- Fuel for the graph traversals (canonical form, renderer, freeze): `Avro.Impl.graphFuel`
+    (`AvroModel/Lemmas/DriverFuel.lean`), the bound of the totality theorems C19_pcf_total /
+    C19_render_total, `size * (size+1) * (maxWidth+1) + 1`, with slack
+    (`Theorems/GraphFuel.lean`: `pcfBound_le_graphFuel`, `renderBound_le_graphFuel`).
+    No local definition: `graphFuel` below IS `Avro.Impl.graphFuel`. -/
+example (S : SchemaMut) : graphFuel S = (S.size + 2) * (S.size + 2) * (maxWidth S + 2) + 64 := rfl
 
 /-- The C02 oracle on an `Ok(bytes)` outcome: the bytes decode, completely, under the
     specification's decoder, to a value the presentation denotes. -/
@@ -147,7 +151,8 @@ def runJudgeSer : P String := do
 
 def deOne (cfg : DeConfig) (S : Schema) (root : Node) (depth : Nat) (hint : Hint) (st0 : RState) :
     Except DeErr (Out × Nat) :=
-  let fuel := (depth + 4) * (cfg.maxSeqSize + 8 * S.size + 64) + 16 * st0.rest.length + 4096
+  -- `Avro.Impl.deFuel`: the historical formula, never below `fuelBound cfg S hint depth` (C04)
+  let fuel := deFuel cfg S hint depth st0.rest.length
   let (r, st) := de deExtModel cfg S fuel root depth false hint st0
   match r with
   | .ok o => .ok (o, st.rest.length)
@@ -825,7 +830,7 @@ def runSingle : P String := do
   | some root, some rootO, .ok fp, .ok fpO, .ok pcfA, .ok pcfB =>
     let readBoth := fun (bytes : Bytes) (fpX : Bytes) (Sx : Schema) (rootX : Node) =>
       let datum := fun (st : RState) =>
-        let fuel := (64 + 4) * (1000000000 + 8 * Sx.size + 64) + 16 * st.rest.length + 4096
+        let fuel := deFuel {} Sx .any 64 st.rest.length
         de deExtModel {} Sx fuel rootX 64 false .any st
       let fmt := fun (r : Except DeErr Out × RState) => match r.1 with
         | .ok o => s!"ok {outToString o}"
@@ -1143,7 +1148,7 @@ def runOcfr : P String := do
   | some root =>
     let cfg : DeConfig := {}
     let datum := fun (st : RState) =>
-      let fuel := (64 + 4) * (cfg.maxSeqSize + 8 * S.size + 64) + 16 * st.rest.length + 4096
+      let fuel := deFuel cfg S hint 64 st.rest.length
       de deExtModel cfg S fuel root 64 false hint st
     let crcOf (plain : Bytes) : Bytes := []
     let _ := crcOf
